@@ -28,7 +28,7 @@ const swaggerDoc = `{
  "swagger":"2.0","info":{"title":"c09","version":"1"},"basePath":"/",
  "consumes":["application/json","text/plain"],"produces":["application/json","text/plain"],
  "securityDefinitions":{
-  "key":{"type":"oauth2","flow":"password","tokenUrl":"http://x/t","scopes":{"ska":"","skc":""}},
+  "key":{"type":"oauth2","flow":"password","tokenUrl":"http://x/t","scopes":{"ska":"","skc":"","skd":""}},
   "tok":{"type":"oauth2","flow":"password","tokenUrl":"http://x/t","scopes":{"stc1":"","stc2":""}}},
  "paths":{
   "/a/{id}":{"post":{"operationId":"opA","security":[{"key":["ska"]}],
@@ -36,6 +36,9 @@ const swaggerDoc = `{
     "responses":{"200":{"description":"ok"}}}},
   "/b/{id}":{"post":{"operationId":"opB",
     "parameters":[{"name":"id","in":"path","type":"string","required":true},{"name":"body","in":"body","required":true,"schema":{"type":"object"}}],
+    "responses":{"200":{"description":"ok"}}}},
+  "/d":{"post":{"operationId":"opD","security":[{"key":["skd"]}],
+    "parameters":[{"name":"body","in":"body","required":true,"schema":{"type":"object"}}],
     "responses":{"200":{"description":"ok"}}}},
   "/c/{id}":{"get":{"operationId":"opC","security":[{"key":["skc"]},{"tok":["stc1","stc2"]}],
     "parameters":[{"name":"id","in":"path","type":"string","required":true}],
@@ -219,6 +222,21 @@ func authenticator(scheme string) oruntime.Authenticator {
 	})
 }
 
+func dash(s string) string {
+	if s == "" {
+		return "-"
+	}
+	return s
+}
+
+func idOf(m map[string]interface{}) string {
+	if v, ok := m["id"]; ok {
+		s, _ := v.(string)
+		return s
+	}
+	return "-"
+}
+
 func bodyTag(v interface{}) string {
 	switch x := v.(type) {
 	case string:
@@ -237,7 +255,7 @@ func bodyTag(v interface{}) string {
 func handler() oruntime.OperationHandler {
 	return oruntime.OperationHandlerFunc(func(params interface{}) (interface{}, error) {
 		m, _ := params.(map[string]interface{})
-		id, _ := m["id"].(string)
+		id := idOf(m)
 		body := "-"
 		if b, ok := m["body"]; ok {
 			body = bodyTag(b)
@@ -251,6 +269,9 @@ func handler() oruntime.OperationHandler {
 			}
 		}
 		emit("handle", v...)
+		if _, hasID := m["id"]; !hasID {
+			return body, nil
+		}
 		return id, nil
 	})
 }
@@ -275,6 +296,7 @@ func build() *built {
 	api.RegisterOperation("POST", "/a/{id}", handler())
 	api.RegisterOperation("POST", "/b/{id}", handler())
 	api.RegisterOperation("GET", "/c/{id}", handler())
+	api.RegisterOperation("POST", "/d", handler())
 	if err := api.Validate(); err != nil {
 		panic(err)
 	}
@@ -300,7 +322,7 @@ func hook(stage string, r *http.Request, detail ...any) {
 	case "route":
 		lookups.Add(1)
 		route := detail[0].(*middleware.MatchedRoute)
-		emit("route", route.PathPattern, route.Params.Get("id"))
+		emit("route", route.PathPattern, dash(route.Params.Get("id")))
 	case "ctype":
 		emit("ctype", short(detail[0].(string)))
 	case "format":
@@ -325,7 +347,7 @@ func hook(stage string, r *http.Request, detail ...any) {
 			rs.boundReq = r
 		}
 		m, _ := detail[0].(map[string]interface{})
-		id, _ := m["id"].(string)
+		id := idOf(m)
 		body := "-"
 		if b, ok := m["body"]; ok {
 			body = bodyTag(b)
@@ -353,11 +375,14 @@ func reqFrom(m map[string]any) reqIn {
 
 func (q reqIn) httpRequest() *http.Request {
 	method, path := "POST", "/a/"
+	id := q.ID
 	switch q.Op {
 	case "opB":
 		path = "/b/"
 	case "opC":
 		method, path = "GET", "/c/"
+	case "opD":
+		path, id = "/d", ""
 	}
 	var body io.Reader
 	if method == "POST" {
@@ -367,7 +392,7 @@ func (q reqIn) httpRequest() *http.Request {
 			body = bytes.NewReader([]byte(q.Body))
 		}
 	}
-	r, err := http.NewRequest(method, "http://x"+path+q.ID, body)
+	r, err := http.NewRequest(method, "http://x"+path+id, body)
 	if err != nil {
 		panic(err)
 	}
